@@ -6,7 +6,12 @@
 // "i" non-zero initial value, "z" zero value, "a"/"b" mock values.
 package vars
 
-import "errors"
+import (
+	"errors"
+	"reflect"
+)
+
+func reflectPtr(p interface{}) uintptr { return reflect.ValueOf(p).Pointer() }
 
 type S struct {
 	A int
@@ -348,4 +353,15 @@ func Restore() {
 	ptr1, ptr2 = PI, nil
 	func1, func2 = fi, nil
 	u81, u82 = 9, 0
+}
+
+// Addr is the true run-time address of the unexported variable n of class typ (taken with &).
+func Addr(typ string, n int) uintptr {
+	f := n == 1
+	p := map[string][2]interface{}{"int": {&int1, &int2}, "str": {&str1, &str2}, "f64": {&f641, &f642}, "slice": {&slice1, &slice2},
+		"map": {&map1, &map2}, "struct": {&struct1, &struct2}, "ptr": {&ptr1, &ptr2}, "func": {&func1, &func2}, "u8": {&u81, &u82}}[typ]
+	if f {
+		return reflectPtr(p[0])
+	}
+	return reflectPtr(p[1])
 }
